@@ -487,10 +487,10 @@ func (x *runner) replay(path string) {
 
 func main() {
 	r := ev.New("C12", "exploration")
-	r.Rule("random: a cluster of 3-8 stores with zone/rack/host/disk/engine/$x/$y/exclusive labels, a region of 1-6 peers on distinct stores (voters/learners, leader among the voters, peer ids unrelated to list order), 1-4 ordered rules (role voter/leader/follower/learner, count 1-4, 0-2 constraints in/notIn/exists/notExists, 0-3 location labels); three profiles (generic, tie-heavy plain clusters, voters+tiflash-learners); 10% of the cases additionally get a hazard (letter case, empty label value, dropped label) and are judged only if every reading of the undocumented point gives the same primitives. exhaustive: every (store subset, learner mask, leader) x every ordered pair of rules from role x count x constraint x location-label options over a fixed small cluster. A case is counted distinct non-trivial when at least two valid assignments exist, keyed by its abstract shape: peer roles + leader, and per rule role/count/#location labels, which peers' stores satisfy the constraints, and the pairwise first-differing location level")
+	r.Rule("random: a cluster of 3-8 stores with zone/rack/host/disk/engine/$x/$y/exclusive labels, a region of 1-6 peers on distinct stores (voters/learners, leader among the voters, peer ids unrelated to list order), 1-4 ordered rules (role voter/leader/follower/learner, count 1-4, 0-2 constraints in/notIn/exists/notExists, 0-3 location labels); three profiles (generic, tie-heavy plain clusters, voters+tiflash-learners); 25% of the cases are rewritten with letter-case variants of the same words in label keys / values / rule keys / constraint values (z1/Z1), values that are prefixes of each other (z1/z10) and empty values, 10% additionally get one or two such edits or a dropped label; a complete directed grid of three stores with zone/host values from such variants. exhaustive: every (store subset, learner mask, leader) x every ordered pair of rules from role x count x constraint x location-label options over a fixed small cluster. A case is counted distinct non-trivial when at least two valid assignments exist, keyed by its abstract shape: peer roles + leader, and per rule role/count/#location labels, which peers' stores satisfy the constraints, and the pairwise first-differing location level")
 	r.Assume("oracle = independent Go model written from the property statement and the doc comments (constraint ops, exclusive labels '$*'/engine/exclusive, role matching and the only impossible conversion non-learner->learner, isolation score = sum over peer pairs of 100^(L-i-1), order: per rule more peers, fewer mismatches, higher isolation, then fewer orphans); brute force over ALL (K+1)^n maps")
 	r.Assume("FitRegion is called with a StoreSet that holds every store of the cluster (GetStores) and resolves every peer's store (GetStore); peers sit on distinct stores, roles are Voter/Learner only (no joint-consensus roles), exactly one leader and it is a voter, counts >= 1, label keys unique per store")
-	r.Assume("zones the statement does not decide (letter case of keys/values, empty label values, stores lacking a location label of a rule) are judged only when all readings agree on every primitive; otherwise skipped_ambiguous")
+	r.Assume("label conventions mirrored from pd (independently computed): keys looked up ignoring letter case, empty value = label not set, location values compared ignoring letter case, unset location label = same place as anyone, constraint values compared exactly. Still undecided and judged only when all readings agree (else skipped_ambiguous): letter case of exclusive label keys (engine/exclusive/$*) and of their being named in the constraints, an exclusive key with an empty value")
 	r.Assume("laundered mode (40% of the random cases + a directed family): the rule list is stored in a real placement.RuleManager (memory kv), fetched back via GetRule / GetAllRules / GetRulesForApplyRegion / GetRulesByKey (+Clone), visible fields of harness-owned copies are edited in place, optionally SetRule + re-fetch, and those objects go to FitRegion; the model reads only their exported fields. Rule lists the manager rejects (e.g. leader rule with count > 1) are judged as plain literals and counted")
 	r.Assume("history families: one core.BasicCluster + one RuleManager + three regions live across a history (store labels replaced by Clone(SetStoreLabels)+PutStore, rules by SetRule/SetRules/DeleteRule and get-edit-set incl. injected storage write failures, regions by RegionInfo.Clone(With...)); entry point RuleManager.FitRegion(cluster, region); the case judged is read back from what the objects show. Concurrent phases are free running: a reader's result is judged against the rule objects it reports and the store objects its own call was handed (recording view); calls whose listing and per-peer lookups disagree in a way that triggers the implementation's 'rule matches no store' shortcut are skipped; hidden lazily-written state is left to the race detector")
 	quietLogs()
@@ -522,6 +522,11 @@ func main() {
 		for _, j := range directedCases() {
 			x.jobs <- j
 		}
+	}
+	if r.Shard == 0 {
+		caseVariantGrid(func(idx int, c *Case) {
+			x.jobs <- job{c: c, tag: "directed_case_variants", idx: idx, seed: uint64(idx)*40503 + 9}
+		})
 	}
 	done := 0
 	lay.each(r.Shard, r.Shards, func(idx int, c *Case) {
